@@ -32,9 +32,11 @@ impl Rng {
     }
     /// uniform in 0..n (n > 0)
     pub fn below(&mut self, n: u64) -> u64 {
+        if n == 0 { return 0; }
         self.next_u64() % n
     }
     pub fn range(&mut self, lo: u64, hi_incl: u64) -> u64 {
+        if hi_incl <= lo { return lo; }
         lo + self.below(hi_incl - lo + 1)
     }
     pub fn chance(&mut self, num: u64, den: u64) -> bool {
@@ -81,8 +83,13 @@ pub fn unhex(s: &str) -> Vec<u8> {
 }
 
 /// Run code under test; a panic is data (Err(message)), never a harness failure.
+thread_local! { static IN_GUARD: std::cell::Cell<u32> = std::cell::Cell::new(0); }
+
 pub fn guarded<T>(f: impl FnOnce() -> T) -> Result<T, String> {
-    match catch_unwind(AssertUnwindSafe(f)) {
+    IN_GUARD.with(|g| g.set(g.get() + 1));
+    let r = catch_unwind(AssertUnwindSafe(f));
+    IN_GUARD.with(|g| g.set(g.get() - 1));
+    match r {
         Ok(v) => Ok(v),
         Err(e) => {
             let msg = if let Some(s) = e.downcast_ref::<&str>() {
@@ -99,7 +106,11 @@ pub fn guarded<T>(f: impl FnOnce() -> T) -> Result<T, String> {
 
 /// Silence the default panic message printing (panics of the code under test are data)
 pub fn quiet_panics() {
-    std::panic::set_hook(Box::new(|_| {}));
+    let default = std::panic::take_hook();
+    std::panic::set_hook(Box::new(move |info| {
+        // panics of the code under test (inside `guarded`) are data; a panic of the harness itself is reported
+        if IN_GUARD.with(|g| g.get()) == 0 { default(info); }
+    }));
 }
 
 pub fn le32(x: u32) -> [u8; 4] {
